@@ -35,6 +35,9 @@ def run(ctx):
             ctx.cov["states"] += r["distinct"]
             ctx.cov["transitions"] += r["generated"]
             ctx.run_replay("replay-sql", ["-in", path, "-seed", seed], "replay-sql-" + sel, sigkeys=("kind", "dsn"))
+            if sel == "count":
+                # literals that differ only in the white space inside them
+                ctx.run_replay("replay-sql", ["-in", path, "-seed", seed, "-dict", "ws"], "replay-sql-whitespace-values", sigkeys=("kind", "dsn"))
             os.remove(path)
         ctx.design("Gen_Stmt", "Gen_Stmt.cfg", label="rows", workers=4)
         # data source names, Exec, transactions (driver surface around the rows), bound arguments
